@@ -24,8 +24,11 @@ def sh(cmd, **kw):
     return subprocess.run(cmd, stdout=subprocess.PIPE, stderr=subprocess.STDOUT, text=True, **kw)
 
 
+SUBDIR = "seeded"        # "benign" with --benign: behaviour-preserving rewrites, the checks must stay silent
+
+
 def run_one(sid, wt, out):
-    d = os.path.join(VERIF, "seeded", sid)
+    d = os.path.join(VERIF, SUBDIR, sid)
     meta = json.load(open(os.path.join(d, "meta.json")))
     props = meta.get("run_checks") or [meta["property"]]
     sh(["git", "-C", wt, "checkout", "--", "."])
@@ -60,12 +63,16 @@ def run_one(sid, wt, out):
 
 
 def main():
+    global SUBDIR
     args = sys.argv[1:]
+    if args[:1] == ["--benign"]:
+        SUBDIR = "benign"
+        args = args[1:]
     jobs = 4
     if args[:1] == ["-j"]:
         jobs = int(args[1])
         args = args[2:]
-    sd = os.path.join(VERIF, "seeded")
+    sd = os.path.join(VERIF, SUBDIR)
     ids = args or sorted(d for d in os.listdir(sd) if os.path.exists(os.path.join(sd, d, "patch.diff")))
     results = {}
     try:
@@ -112,6 +119,10 @@ def main():
             results = {}
         results.update(mine)
         json.dump(results, open(os.path.join(sd, "RESULTS.json"), "w"), indent=1, sort_keys=True)
+    if SUBDIR == "benign":
+        loud = [k for k in ids if results[k].get("caught") or any(v.get("exit") for v in results[k].get("checks", {}).values())]
+        print("benign rewrites: %d run, %d raised an alarm or failed: %s" % (len(ids), len(loud), loud))
+        return 0
     missed = [k for k in ids if not results[k].get("caught")]
     print("this run: caught %d / %d; missed: %s" % (len(ids) - len(missed), len(ids), missed))
     allmissed = [k for k, v in results.items() if not v.get("caught")]
